@@ -419,7 +419,7 @@ class SingleMarker(SingleMarkerLike[Union[BaseConstraint, VersionConstraint]]):
             elif name == "python_full_version" and not swapped_name_value:
                 # fix precision of python_full_version marker
                 precision = self._value.count(".") + 1
-                if precision < 3:
+                if precision < 3 and self._value.replace(".", "").isdigit():
                     suffix = ".0" * (3 - precision)
                     self._value += suffix
                     constraint_string += suffix
